@@ -59,6 +59,11 @@ func (s *StateDBWrapper) Finish() {
 	for addr, _ := range s.accessedObjAddrs {
 		amt := uint256.MustFromBig(s.StateDB.GetBalance(addr))
 		nonce := s.StateDB.GetNonce(addr)
+		if s.StateDB.HasSuicided(addr) {
+			// a self-destructed contract ceases to exist when the transaction ends:
+			// whatever it still holds (e.g. value sent to it after the self-destruct) is gone and its nonce restarts at 0.
+			amt, nonce = uint256.NewInt(0), 0
+		}
 
 		acct := s.acctHandler.FindOrNewAccount(addr[:], s.exec)
 		acct.SetBalance(amt)
